@@ -1,11 +1,15 @@
 // Driver for the registration half of C07: drives the real singleton registry with generated
 // registration sequences (custom / default / empty custom names, the same instance twice, two
 // instances under one name) and reports per registration ok | same | panic and the final content.
+//
+// Besides ordinary components the sequences contain components that share an ADDRESS without being
+// the same component: pointers to values of different zero-size types (zero.go; every such pointer
+// is runtime.zerobase) whose Naming() is a constant, and a struct together with a pointer to its
+// first (embedded) field, which inherits Naming().  An instance is identified by its interface
+// value (type and pointer), never by the address alone.
 package main
 
 import (
-	"reflect"
-
 	"github.com/go-kid/ioc/container/support"
 	"github.com/go-kid/ioc/syslog"
 	"github.com/go-kid/ioc/util/framework_helper"
@@ -23,10 +27,23 @@ type P0 struct{ x int }
 type P1 struct{ x int }
 type P2 struct{ x int }
 
+// W0, W1: the embedded `named` is the first field, so &w and &w.named are one address and one name
+type W0 struct {
+	named
+	x int
+}
+type W1 struct {
+	named
+	x int
+}
+
 type Req struct {
-	Inst int    `json:"inst"`
-	Type string `json:"type"` // N0..N2 (with Naming) | P0..P2 (without)
+	Inst int `json:"inst"`
+	// N0..N2 (Naming from state) | P0..P2 (no Naming) | W0, W1 (struct whose first field announces the name) |
+	// F (pointer to the first field of instance Of, a W) | a zero-size type of zero.go (constant or no Naming)
+	Type string `json:"type"`
 	Name string `json:"name"`
+	Of   int    `json:"of"`
 }
 
 type Case struct {
@@ -42,8 +59,23 @@ type Out struct {
 	FinalIn []int    `json:"finalin"` // instance registered under each final name
 }
 
-func mk(r Req) any {
+func mk(r Req, insts map[int]any) any {
+	if z, ok := zeroCtors[r.Type]; ok {
+		return z()
+	}
 	switch r.Type {
+	case "W0":
+		return &W0{named: named{r.Name}}
+	case "W1":
+		return &W1{named: named{r.Name}}
+	case "F":
+		switch o := insts[r.Of].(type) {
+		case *W0:
+			return &o.named
+		case *W1:
+			return &o.named
+		}
+		return &named{r.Name}
 	case "N0":
 		return &N0{named{r.Name}}
 	case "N1":
@@ -70,9 +102,14 @@ func main() {
 		o := Out{ID: c.ID}
 		reg := support.NewRegistry()
 		insts := map[int]any{}
+		for _, r := range c.Reqs { // outer structs first: a first-field request may precede its struct in the sequence
+			if _, ok := insts[r.Inst]; !ok && r.Type != "F" {
+				insts[r.Inst] = mk(r, insts)
+			}
+		}
 		for _, r := range c.Reqs {
 			if _, ok := insts[r.Inst]; !ok {
-				insts[r.Inst] = mk(r)
+				insts[r.Inst] = mk(r, insts)
 			}
 			obj := insts[r.Inst]
 			o.Names = append(o.Names, framework_helper.GetComponentName(obj))
@@ -95,7 +132,7 @@ func main() {
 			s, _ := reg.GetSingleton(n)
 			idx := -1
 			for k, v := range insts {
-				if reflect.ValueOf(v).Pointer() == reflect.ValueOf(s).Pointer() {
+				if v == s { // interface equality: same dynamic type and same pointer
 					idx = k
 				}
 			}
